@@ -55,6 +55,12 @@ add("C05", True, "E2-enum", "model_checking",
     "Trusted: fragment sizes < 4 excluded; no fragment GC (virtual clock does not advance); layer (b) builds DATAFRAGs with the Writer's own constructor.",
     "5.5")
 
+add("C08", True, "E1-bfs", "model_checking",
+    "explicit-state BFS (history replay) over arrival/access histories on a real DataReader, lock-step with a DDS 1.4 reference model that is existential over cross-writer arrival orders",
+    "Values, disposes and reordered (repaired-loss) arrivals of 1-2 writers on 1-2 instances are injected into the real TopicCache of a real DataReader exactly as Reader::make_cache_change does; every access form of the API (read/take with max 1|all and any|not_read, read/take_next_sample, read/take_instance This/Next/None, the four iterator forms) is an event. All histories up to the depth bound, for KeepAll, KeepLast(1), KeepLast(2). After every access seven clauses are checked against the model: take at most once and removes; read never removes and sample state is truthful; instance state and disposed generation count per returned sample; view state of the most recent returned sample of each instance (DDS per-instance or per-generation reading); the result is exactly the held samples matching condition/instance/max; per-writer sequence-number order; held samples of an instance are among its depth most recent changes.",
+    "Trusted: the reference model in harness/src/c08.rs; cross-writer reception order is not assumed (every merge respecting per-writer order is a candidate; a result must be explained by one); completeness judged against the observed cache content.",
+    "5.8")
+
 NOT_YET = {}
 
 def main():
